@@ -63,6 +63,13 @@ func Strfmt(ctx *runtime.Task, funcExpr *ast.CallExpr) *errchain.PlError {
 		outdata = append(outdata, v)
 	}
 
+	for i, v := range outdata {
+		if containsItself(v) {
+			return runtime.NewRunError(ctx, "a value that contains itself cannot be formatted",
+				funcExpr.Param[i+2].StartPos())
+		}
+	}
+
 	strfmt := fmt.Sprintf(fmts, outdata...)
 	if err := addKey2PtWithVal(ctx.InData(), key, strfmt, ast.String,
 		input.KindPtDefault); err != nil {
